@@ -875,6 +875,24 @@ func (e *rpcEnv) requestBody() []byte {
 		body = []byte(base64.StdEncoding.EncodeToString(body))
 	}
 	if (c.Proto == "http" || c.Proto == "twirp") && c.Comp == "gzip" {
+		// a gzip body may consist of several members (RFC 1952): every third case is cut into two or three, at a message
+		// boundary or anywhere else
+		if c.ID%3 == 1 && len(body) > 1 && c.Trunc == 0 {
+			a := 1 + (c.ID*7)%(len(body)-1)
+			if len(frames) > 1 && c.ID%2 == 0 {
+				a = len(frames[0])
+			}
+			parts := [][]byte{body[:a], body[a:]}
+			if len(body)-a > 2 && c.ID%5 == 1 {
+				b := a + 1 + (c.ID*3)%(len(body)-a-1)
+				parts = [][]byte{body[:a], body[a:b], body[b:]}
+			}
+			body = nil
+			for _, p := range parts {
+				body = append(body, gz(p)...)
+			}
+			return body
+		}
 		body = gz(body)
 	}
 	return body
